@@ -24,6 +24,17 @@ pub fn gen_n(r: &mut Rng, n_max: usize) -> usize {
     n.min(n_max).max(1)
 }
 
+/// kind for the moving-average slot of Pfe / Eft: the API accepts any view there, so besides the usual
+/// averages a third of the picks are other smoothers and a few odd choices (overshooting, clipping, order
+/// statistics, normalisers)
+pub fn pick_ma_kind(r: &mut Rng) -> K {
+    if r.chance(0.65) {
+        pick_ma_kind(r)
+    } else {
+        *r.pick(&[K::SuperSmoother, K::SuperSmoother, K::LaguerreFilter, K::Cumulative, K::Min, K::Max, K::Tanh, K::Gte, K::Lte, K::HLNormalizer, K::Vsct])
+    }
+}
+
 pub const GAMMAS: &[f64] = &[0.0, 0.1, 0.2, 0.3, 0.4, 0.5, 0.6, 0.7, 0.8, 0.9, 0.95];
 
 /// fill the secondary parameters of node `s` (kind and n already set) within their admissible ranges
@@ -121,10 +132,29 @@ pub fn gen_tree(r: &mut Rng, cfg: &TreeCfg, depth_left: usize, parent_n: usize, 
         let b = gen_tree(r, cfg, depth_left - 1, parent_n, in_ma, need_pos || op == K::Div);
         return Spec::bin(op, a, b);
     }
+    if need_pos && !in_ma && depth_left >= 1 {
+        let x = r.unit();
+        if x < 0.15 {
+            // a positive floor over anything: the raw stream may then contain zeros and negatives
+            let inner = gen_tree(r, cfg, depth_left - 1, parent_n, in_ma, false);
+            let mut g = Spec::un(K::Gte, 0, inner);
+            g.p = *r.pick(&[0.5, 1.0, 2.5, 10.0]);
+            return g;
+        }
+        if x < 0.25 {
+            // non-negative signal plus a positive constant: tolerates exact zeros in the raw stream
+            let nk = *r.pick(&[K::Ema, K::Min, K::Max, K::Tanh]);
+            let leaf = gen_leaf(r, cfg, parent_n, in_ma, false);
+            let leaf = if leaf.k == K::Const { Spec::echo() } else { leaf };
+            let a = Spec::un(nk, gen_n(r, cfg.n_max), leaf);
+            let c = Spec::constant(*r.pick(&[0.5, 1.0, 2.0, 7.0]));
+            return if r.chance(0.5) { Spec::bin(K::Add, a, c) } else { Spec::bin(K::Add, c, a) };
+        }
+    }
     let k = if need_pos {
         *r.pick(positive_kinds())
     } else if in_ma {
-        *r.pick(MAS)
+        pick_ma_kind(r)
     } else {
         *r.pick(&cfg.kinds)
     };
@@ -145,7 +175,7 @@ pub fn gen_node(r: &mut Rng, cfg: &TreeCfg, k: K, depth_left: usize, in_ma: bool
     let inner = gen_tree(r, cfg, d, n.max(1), in_ma, child_pos);
     let mut s = match k {
         K::Pfe | K::Eft => {
-            let mk = *r.pick(MAS);
+            let mk = pick_ma_kind(r);
             let mn = gen_n(r, cfg.n_max.min(24));
             let mut ma = Spec::un(mk, mn, gen_leaf(r, cfg, mn, true, false));
             gen_params(r, &mut ma, false);
